@@ -35,7 +35,9 @@ Checks(e) ==
   CASE e[1] = "boot" ->
         LET r == e[2]
             o == OptFun(r.opts)
-        IN IF ~Returned(r) THEN [BootCompletes |-> FALSE]
+        \* a boot may fail only when the environment made one of its send() calls fail (r.fault = 1); a boot that
+        \* returns - fault or not - is judged in full
+        IN IF ~Returned(r) THEN [BootCompletes |-> r.fault = 1]
            ELSE LET bc == BootClauses(SvBundled, o, r.image, r.dg, st)
                 IN \* a leak also counts when it shows only in the returned structs (variables that are not sent)
                 [ OnlyOwnOptions       |-> bc.OnlyOwnOptions /\ LeakedReturnedNames(SvBundled, o, r.sv, st) = {} ] @@
@@ -46,7 +48,8 @@ Checks(e) ==
                   SentToBootedBoard    |-> /\ Len(r.dst) = Len(r.dg)
                                            /\ \A i \in 1..Len(r.dst) : r.dst[i] = <<r.host, r.port>> ]
     [] e[1] = "end" ->
-        [ AllBootsJudged |-> e[2] = Len(st) /\ ei = Len(Tr.ev) ]
+        \* (every event before this one was a boot, and each was judged - returned or not)
+        [ AllBootsJudged |-> e[2] = ei - 1 /\ ei = Len(Tr.ev) ]
     [] OTHER -> [UnknownEvent |-> FALSE]
 
 Apply(e) == IF e[1] = "boot" /\ Returned(e[2]) THEN Append(st, HistEntry(OptFun(e[2].opts), e[2].dg)) ELSE st
